@@ -50,6 +50,10 @@ CHECKS = {
    technique="bounded-exhaustive enumeration of store contents (3^4 combinations of running and three intents per path, for 9 leaf types and for pairs of paths) written into the real cache, one deviation cycle each through the hook, message multiset compared with a reference model",
    text="For each leaf type class all 81 combinations of running in {absent,v1,v2} and intents A@10,B@20,C@30 in {absent,v1,v2} (and for pairs of paths the product, complete in the thorough tier) are written directly into the CONFIG and INTENDED stores; one deviation cycle runs through the VerifRunDeviationCycle hook into a recording stream; the messages between START and END must equal, as a multiset of (reason, intent, path, expected, current), what the reference model derives from the store contents.",
    note="Exhaustive within the value domain {v1,v2} per type and at most two paths; values are typed the way the request pipeline types them."),
+ "C20": dict(level="exploration", engine="E3-inputs", design="DESIGN.md §3 C20",
+   technique="bounded-exhaustive input enumeration with a crash oracle, every case executed in worker subprocesses (panic in any goroutine, fatal error and hang are observed per case; SIGQUIT stack dump names the call site)",
+   text="All path strings up to length 6 (quick) / 7 (thorough) over the alphabet 'a/[]=:\\ *' through ParsePath, StripPathElemPrefix, CompletePathFromString; the cross product of 53 paths (every schema node class, missing/extra/unknown keys, empty and nil elements) x 95 typed values (all 17 oneof kinds, nil forms, 33 JSON documents as JSON and JSON_IETF) through pkg/server.TransactionSet, also as replace intent and dry run; intent names x priorities x flags; GetData/Subscribe selectors; the same paths x values as device notifications (update and delete) through Datastore.Sync with validation on and off; NETCONF replies through the XML adapter and both tree importers. A case fails if it panics, crashes the process or does not return within 30 s three times.",
+   note="Exhaustive only within the printed alphabets, sizes and document lists; 9466 cases in the quick tier."),
  "C18": dict(level="fault_enumeration", engine="E2-faults", design="DESIGN.md §3 C18",
    technique="exhaustive enumeration of behaviour assignments (ok / warning reply / error / rpc-error / EOF / dead) to every netconf.Driver call of the real ncTarget.Set, over real change documents, both commit-datastore settings and all 8 option combinations, with a candidate-modelling fake driver",
    text="The production NETCONF target (hook constructor around a harness driver) is driven through the real transaction pipeline. For 6 change-document scenarios x {candidate,running} x 8 XML option combinations x every assignment of behaviours to IsAlive/EditConfig/Commit/Discard the driver call log is checked: success = exactly one edit-config (+ exactly one commit), nothing for an empty change, a discard after any failure before the error is returned, and a following fault-free transaction never commits leftovers (the fake models the candidate's pending edits). The space is finite and enumerated completely.",
@@ -92,7 +96,7 @@ m = {
  },
  "engines": [
    {"name": "E2-faults", "path": "harness/h/check_c07.go", "serves_properties": ["C07", "C18"], "kind_free_text": "fault enumeration: every assignment of failure behaviours to the collaborator calls of one operation, each executed on the real code"},
-   {"name": "E3-inputs", "path": "harness/h/check_c15.go", "serves_properties": ["C11", "C12", "C15"], "kind_free_text": "bounded-exhaustive enumeration of inputs / store contents over explicit finite domains, each case executed on the real code and judged by a reference model"},
+   {"name": "E3-inputs", "path": "harness/h/check_c15.go", "serves_properties": ["C11", "C12", "C15", "C20"], "kind_free_text": "bounded-exhaustive enumeration of inputs / store contents over explicit finite domains, each case executed on the real code and judged by a reference model"},
    {"name": E1, "path": "harness/h/explore.go", "serves_properties": sorted(k for k, v in CHECKS.items() if v["engine"] == E1),
     "kind_free_text": "level-synchronous explicit-state search; successor = replay of the shortest history on a fresh real Datastore/cache instance + one operation; canonical state key without timestamps; per-property oracle plug-ins"},
  ],
